@@ -4,8 +4,8 @@ CONSTANTS
   AllowD2 = TRUE
   Keys = {0, 1, 2}
   Vals = {"a", "b"}
-  Grans = {1}
-  MaxItems = 4
-  MaxAdds = 5
+  Grans = {1, 10}
+  MaxItems = 3
+  MaxAdds = 4
 INVARIANTS TypeOK Sorted UniqueOK IdsDistinct CursorOK RangeTheorem
 CHECK_DEADLOCK FALSE
